@@ -165,6 +165,7 @@ impl Prop for C09 {
                 cfg_mode: if thorough { CfgMode::Dev2 } else { CfgMode::Dev1Relevant },
                 cfg_ctx_limit: if thorough { 2 } else { 1 },
                 l1: false,
+                dev_editions: vec![],
             },
             None,
         );
@@ -258,7 +259,12 @@ impl Prop for C09 {
                 Ok(f) => f,
                 Err(e) => {
                     sink.count("frozen_errors", 1);
-                    eprintln!("frozen: {e}");
+                    if let Ok(p) = std::env::var("VERIF_SLOWLOG") {
+                        use std::io::Write as _;
+                        if let Ok(mut f) = std::fs::OpenOptions::new().create(true).append(true).open(p) {
+                            let _ = writeln!(f, "FROZEN-ERROR {e}\t{}\t{}\t{:?}", u.key, u.cfg.label(), u.text);
+                        }
+                    }
                     continue;
                 }
             };
